@@ -177,11 +177,14 @@ func (r *runner) graph(edges []edge, qmode string, pathsOut string) error {
 					return err
 				}
 				if stateID(rents) != id || rraw != raw {
-					return fmt.Errorf("re-executing the script of state %q gave %q (store bytes equal: %v)", id, stateID(rents), rraw == raw)
+					// keep the state actually reached (a nested branch) as the representative
+					r.stats["rematerialise_mismatch"]++
+					rep = next
 				}
 				reps[id], hashes[id], regs[id] = rep, rawHash(raw), ents
 				queue = append(queue, id)
 			} else if hashes[id] != rawHash(raw) {
+				// not a reason to stop: the step is recorded from the actual state and judged like any other
 				st.Note = "store bytes differ from the stored representative of this abstract state"
 				r.stats["representative_mismatch"]++
 			}
